@@ -643,6 +643,8 @@ def _sum(x, dim=None, keepdim=False, dtype=None, axis=None, **k):
     a = _obj_f(x)
     if dim == ():
         dim = None
+    if a.ndim == 0:
+        return ST(a)
     r = np.sum(a, axis=_axis(dim), keepdims=keepdim)
     if isinstance(r, (int,)):  # empty sum
         r = nf.ZERO
